@@ -765,6 +765,25 @@ def _rand_double(rng, target):
     return s | (e << 52) | m
 
 
+def _band_doubles(rng, big):
+    """binary64 patterns around the overflow and underflow thresholds of binary16 / binary32: strictly between the largest
+    finite value and the tie that first rounds to infinity, the tie itself, just beyond; likewise around half the smallest subnormal."""
+    out = []
+    for (mx, tie) in ((65504.0, 65520.0), (3.4028234663852886e38, 3.4028235677973366e38)):
+        a, b = pattern_of_f64(mx), pattern_of_f64(tie)
+        pts = {a, a + 1, a + 2, b - 2, b - 1, b, b + 1, b + 2, (a + b) // 2}
+        pts |= {rng.randrange(a + 1, b) for _ in range(60 if big else 14)}
+        pts |= {rng.randrange(b, b + (b - a)) for _ in range(20 if big else 4)}
+        out += sorted(pts)
+    for (sub) in (2.0 ** -24, 2.0 ** -149):
+        h = pattern_of_f64(sub / 2)
+        lo, hi = pattern_of_f64(sub / 4), pattern_of_f64(sub)
+        pts = {h - 1, h, h + 1, lo, hi - 1, hi, hi + 1, pattern_of_f64(sub * 1.5), pattern_of_f64(sub * 1.5) - 1, pattern_of_f64(sub * 1.5) + 1}
+        pts |= {rng.randrange(lo, hi) for _ in range(40 if big else 8)}
+        out += sorted(pts)
+    return out
+
+
 def gen(rng, tier):
     big = tier != "quick"
     # ---- dtype table
@@ -831,6 +850,11 @@ def gen(rng, tier):
             yield L("enc", BO, name, rng.choice([16, "None"]), "%016x" % p)
         for n in (0, 8, 15, 17, 32):
             yield L("enc", BO, name, n, "%016x" % rng.choice(specials))
+    for p in _band_doubles(rng, big):
+        for sgn in (0, 1 << 63):
+            for n in (16, 32, 64):
+                yield L("enc", BO, rng.choice(FLT_NAMES), n, "%016x" % (p | sgn))
+            yield L("enc", BO, rng.choice(BFL_NAMES), rng.choice([16, "None"]), "%016x" % (p | sgn))
     for _ in range(60000 if big else 5000):
         name = rng.choice(FLT_NAMES)
         n = rng.choice([16, 16, 32, 32, 64])
